@@ -183,6 +183,11 @@ func readRole(rs readSite) string {
 			if isSourceRead32(rs.fn) {
 				return "wrapper"
 			}
+			// the word reader written out in place: the bytes just read are decoded with encoding/binary and
+			// the word is stored into one of the fields the wrapper form feeds
+			if role := inlineWordRole(buf); role != "" {
+				return role
+			}
 			// distinguish the 2+1 byte and the 8 byte descriptor reads by the guard
 			if hasAtom(atomsOfBlock(rs.call.Block()), "flag", "Size", true) {
 				return "descriptor content size"
@@ -674,4 +679,59 @@ func sourceReadBufWrapper(f *ssa.Function) (bufIdx int, filtered bool, ok bool) 
 		}
 	})
 	return bufIdx, filtered, true
+}
+
+// inlineWordRole: buf (the slice handed to io.ReadFull) is also the argument of a binary.*.Uint32/Uint64 call
+// whose result is stored into a field that the word-reading wrapper normally feeds; returns that field.
+func inlineWordRole(buf ssa.Value) string {
+	refs := buf.Referrers()
+	if refs == nil {
+		return ""
+	}
+	known := map[string]bool{"Frame.Checksum": true, "Frame.Magic": true, "FrameDataBlock.Size": true, "FrameDataBlock.Checksum": true}
+	roles := map[string]bool{}
+	for _, r := range *refs {
+		call, ok := r.(*ssa.Call)
+		if !ok {
+			continue
+		}
+		f := staticCallee(call)
+		if f == nil || f.Pkg == nil || f.Pkg.Pkg.Path() != "encoding/binary" || !strings.HasPrefix(f.Name(), "Uint") {
+			continue
+		}
+		seen := map[ssa.Value]bool{}
+		var fwd func(v ssa.Value)
+		fwd = func(v ssa.Value) {
+			if v == nil || seen[v] || v.Referrers() == nil {
+				return
+			}
+			seen[v] = true
+			for _, rr := range *v.Referrers() {
+				switch y := rr.(type) {
+				case *ssa.Store:
+					if y.Val == v {
+						if lf := lastField(y.Addr); lf != "" {
+							roles[lf] = true
+						}
+					}
+				case *ssa.Convert:
+					fwd(y)
+				case *ssa.ChangeType:
+					fwd(y)
+				case *ssa.Phi:
+					fwd(y)
+				}
+			}
+		}
+		fwd(call)
+	}
+	var names []string
+	for r := range roles {
+		if !known[r] {
+			return ""
+		}
+		names = append(names, r)
+	}
+	sort.Strings(names)
+	return strings.Join(names, "+")
 }
